@@ -42,6 +42,18 @@ class ConcreteStr(SStr):
 
 
 def wrap(v, name='arg', alphabet=None):
+    from .models import RecordingModel, RecordingFunc
+    from .world import RowWise
+    if isinstance(v, RecordingModel):
+        return Opaque(v.name, 'model', {'rowwise': RowWise(v.name, v.k, v.tuple_kind, v.trailing, recording=True), 'real': v,
+                                        'n_args': None, 'types': ['model']})
+    from .models import RecordingShuffle
+    if isinstance(v, RecordingShuffle):
+        return Opaque('SHUF', 'shuffle_fn', {'types': ['function'], 'recording': True, 'real': v})
+    if isinstance(v, RecordingFunc):
+        m = v.m
+        return Opaque(m.name, 'func', {'rowwise': RowWise(m.name, m.k, m.tuple_kind, m.trailing, recording=True), 'real': v,
+                                       'types': ['function']})
     if isinstance(v, torch.Tensor):
         return Tn.of_real(v.detach().clone(), name)
     if isinstance(v, numpy.ndarray):
@@ -50,6 +62,8 @@ def wrap(v, name='arg', alphabet=None):
         return ConcreteStr(v, alphabet)
     if isinstance(v, (list, tuple)):
         return type(v)(wrap(x, '%s[%d]' % (name, i), alphabet) for i, x in enumerate(v))
+    if isinstance(v, dict):
+        return {k: wrap(x, str(k), alphabet) for k, x in v.items()}
     if isinstance(v, (numpy.integer,)):
         return int(v)
     if isinstance(v, (numpy.floating,)):
@@ -151,6 +165,10 @@ def to_json(v):
 
 def from_json(v, factories=None):
     if isinstance(v, dict):
+        if '__factory__' in v:
+            from .models import FACTORIES
+            if v['__factory__'] in FACTORIES:
+                return FACTORIES[v['__factory__']](v)
         if '__tensor__' in v:
             t = torch.tensor(v['__tensor__'], dtype=getattr(torch, v['dtype']))
             return t.reshape(v['shape'])
